@@ -48,3 +48,33 @@ def universe_scenarios(r, wd, n, depth_choices, families, protocols, expect_trut
                                port=r.choice([53, 53, 5353, 1053]), universe=u["universe"], expect_truth=expect_truth,
                                hostaddrs=u["hostaddrs"]))
     return scs
+
+
+def glue_expiry_scenarios(r, wd, n, protocols=("only-v4", "prefer-v4", "prefer-v6", "only-v6")):
+    """Histories in which time passes between two questions: the address records of the name servers carry a short
+    TTL (60 s), the NS records a long one (3600 s); the second question, for another name of the same zone, comes
+    61..3000 s later.  All name servers live inside the zone they serve (reachable through glue only)."""
+    unis = []
+    for i in range(n):
+        u = rc.build_universe(r, depth=r.choice([1, 2, 2, 3]), nservers=r.choice([1, 2]), families="dual", glue="in",
+                              two_glue_p=0.2)
+        hosts = {tuple(h["host"]) for h in u["hostaddrs"]}
+        for z in u["universe"]["zones"]:
+            for x in z["recs"]:
+                if x["type"] in ("A", "AAAA") and tuple(x["name"]) in hosts and x["name"][-1] != "root-servers":
+                    x["ttl"] = 60
+        unis.append(u)
+    items = [{"universe": u["universe"], "ask": rc.asks_for(u, TYPES), "forwarder_ip": "10.9.9.9"} for u in unis]
+    tables = rc.reply_tables(wd, items)
+    scs = []
+    for u, tab in zip(unis, tables):
+        apexes = [z["apex"] for z in u["universe"]["zones"] if z["apex"]]
+        a = r.choice(apexes)
+        later = r.choice([61, 120, 900, 3000]) * 1000
+        qs = [{"name": ["www"] + a, "type": "A"},
+              {"name": ["txt"] + a, "type": "TXT", "advance_ms": later},
+              {"name": ["www"] + a, "type": "A"}]
+        scs.append(rc.scenario([u["hints"]], [], "recursive", qs, table=rc.table_entries(tab), default={"rcode": 5},
+                               protocol=r.choice(list(protocols)), port=53, universe=u["universe"], expect_truth=True,
+                               hostaddrs=u["hostaddrs"], tag="glue-expiry"))
+    return scs
